@@ -49,6 +49,12 @@ func allowedResults(u *unitCase) (res []allowed, active, mustDecode bool) {
 			}
 		}
 	}
+	if d.Want != nil {
+		for _, x := range d.Want {
+			res = append(res, allowed{"decoded:" + d.WantLabel, x})
+		}
+		return res, true, !bytes.Equal(d.Want[0], d.Body)
+	}
 	if d.HdrCS != "" {
 		cs := specByName(d.HdrCS)
 		switch {
